@@ -232,7 +232,11 @@ pub fn run(tier: Tier) -> i32 {
         let fids: Vec<u8> = if n <= 4 { (0..=255).collect() } else { vec![0, 1, 255] };
         let contents: Vec<Vec<u8>> = if n == 0 { vec![vec![]] } else if n == 1 { (0..=255u8).map(|x| vec![x]).collect() } else { vec![pdu(n, (n % 4) as u8)] };
         for payload in &contents {
-            for l in [L6A, L3A, Lbl::Bcast, Lbl::ReUse] {
+            let mut lbls = vec![L6A, L3A, Lbl::Bcast, Lbl::ReUse];
+            if n <= 2 || n % 500 == 0 {
+                lbls.extend(special_labels().into_iter().filter(|l| *l != L6Z));
+            }
+            for l in lbls {
                 for pt in [0x0600u16, 0x0800, 0xFFFF] {
                     // complete
                     if 2 + l.wire_len() + n <= GSE_LEN_MAX {
